@@ -111,13 +111,16 @@ def run(ctx):
     pe = prog.fn('DyndepParser::ParseEdge')
     pv = prog.fn('DyndepParser::ParseDyndepVersion')
     # X1: version must come first / be present
-    reject_if(ctx, 'C11.X', parse, var_named('haveDyndepVersion'), False,
-              'X1 missing ninja_dyndep_version (before a build statement / at EOF)',
-              'X1:missing-version',
-              success=lambda x: (x['k'] == 'ret' and const_value(x.get('e')) == 1) or
-              (x['k'] == 'call' and x.get('name') == 'DyndepParser::ParseEdge'), min_edges=2,
-              until=lambda x: x['k'] == 'asg' and var_named('haveDyndepVersion')(x['l']) and
-              const_value(x.get('r')) == 1)
+    # (stated over what happens, not over the flag that remembers it: no way from the entry to an accepting event - a build
+    # statement being parsed, or the successful return - that has not passed ParseDyndepVersion; its failure is E1's business)
+    r_ = parse.find_path(None, lambda x: (x['k'] == 'ret' and const_value(x.get('e')) == 1) or
+                         (x['k'] == 'call' and x.get('name') == 'DyndepParser::ParseEdge'), from_succ=parse.entry,
+                         is_blocker=lambda x: x['k'] == 'call' and x.get('name') == 'DyndepParser::ParseDyndepVersion')
+    ctx.check('C11.X', r_ is None and any(True for _ in parse.calls('DyndepParser::ParseDyndepVersion')), parse.name, 'X1:missing-version', parse.loc,
+              'X1 missing ninja_dyndep_version (before a build statement / at EOF): nothing is accepted before ParseDyndepVersion ran',
+              witness=None if r_ is None else {'blocks': r_[0], 'reaches': r_[1].get('src')})
+    for e_ in parse.calls('DyndepParser::ParseDyndepVersion'):
+        ctx.check('C11.X', not e_.get('disc'), parse.name, 'X1:version-result-ignored', parse.where(e_), 'the result of ParseDyndepVersion is tested')
     # X2: unsupported version
     reject_if(ctx, 'C11.X', pv, lambda a: isinstance(strip(a), dict) and strip(a).get('k') == 'bin'
               and strip(a)['op'] == '==' and var_named('major')(strip(a)['l']) and
